@@ -416,6 +416,11 @@ wrapint wrapint::sext(bitwidth_t bits_to_add) const {
                " is a too big bitwidth for a wrapint");
   }
 
+  if (bits_to_add == 0) {
+    // nothing to extend (and _width can be 64 in the shift below)
+    return *this;
+  }
+
   if (msb()) {
     // -- fill upper bits with ones
     // 111...1
